@@ -173,6 +173,30 @@ def step_cli16(pid, tier, seed):
     return "c16cli", H.run_engine([H.tool("vgraph"), "c16cli", "--prop", pid, "--tier", tier, "--file", cli, "--out", out], out)
 
 
+def step_miri(pid, tier, seed):
+    """C05 supplement (thorough): a small exhaustive family through three real-derive lexers under MIRI."""
+    rep = {"engine": "vmiri (cargo +nightly miri run)", "counts": {}, "observed": {}, "violations": [], "samples": [], "notes": [], "bounds": {}, "exhaustive": True}
+    if tier != "thorough":
+        return "miri", rep
+    d = os.path.join(H.ENGINE, "vmiri")
+    for feats in ([], ["sm"]):
+        cmd = ["cargo", "+nightly", "miri", "run", "-q"] + (["--features", ",".join(feats)] if feats else [])
+        p = H.sh(cmd, cwd=d, timeout=3600, check=False, extra_env={"MIRIFLAGS": "-Zmiri-disable-isolation"})
+        out = p.stdout or ""
+        if p.returncode == 0:
+            try:
+                j = json.loads([l for l in out.splitlines() if l.startswith("{")][-1])
+                rep["counts"]["miri_inputs"] = rep["counts"].get("miri_inputs", 0) + j["inputs"]
+                rep["counts"]["evaluations"] = rep["counts"].get("evaluations", 0) + j["next_calls"]
+            except (IndexError, ValueError):
+                rep["notes"].append("miri run produced no summary line")
+        elif "Undefined Behavior" in out or "error: unsupported operation" in out or "panicked" in out:
+            rep["violations"].append({"key": "MIRI/" + ",".join(feats), "tag": "MIRI", "case": "vmiri " + " ".join(feats), "detail": out[-2500:], "replay": {"kind": "miri", "tag": "MIRI"}})
+        else:
+            rep["notes"].append("miri not usable in this sandbox run: " + out[-300:])
+    return "miri", rep
+
+
 def step_readprobe(pid, tier, seed):
     reps = []
     for cfg in ["u-dev", "u-rel", "f-dev", "f-rel"]:
@@ -280,7 +304,7 @@ prop("C05", level="exploration", engine="vrt",
      technique="exhaustive enumeration of Source::read over every (len, offset, chunk size) incl. wrap-around offsets, and of lexing inputs of every length around the 8-byte batch in exactly sized heap allocations, under valgrind memcheck; default vs forbid_unsafe builds x dev/release compared through the common reference",
      text="Source::read returns Some(bytes) iff offset+N <= len in unbounded arithmetic for every enumerated case in all four builds; every compiled lexer run on exactly sized heap inputs is free of invalid reads under memcheck; unsafe and forbid_unsafe builds (dev and release) produce the reference's transcript with no panic.",
      note="valgrind only makes an out-of-bounds access observable; the deciding step is the exhaustive enumeration. Transcript equality between builds is established through equality with the same reference lexer.", design_ref="5 C05",
-     steps=[step_readprobe, step_layer2(["u-dev", "u-rel", "f-dev", "f-rel"], ["u-dev", "u-rel", "f-dev", "f-rel"], crash_tag="CRASH"), step_valgrind],
+     steps=[step_readprobe, step_layer2(["u-dev", "u-rel", "f-dev", "f-rel"], ["u-dev", "u-rel", "f-dev", "f-rel"], crash_tag="CRASH"), step_valgrind, step_miri],
      rules=["Source::read: every len 0..=40 x offset {0..=len+2, usize::MAX-40..=usize::MAX, 2^63+-1, ...} x chunk size {u8,1,2,3,4,7,8,9,16,32} on str and [u8] (non-trivial = end within +-1 of len or overflowing); lexing: all strings <= L symbols + transition cover x 256 + loop inputs of every length 0..=26 on exactly sized heap copies (non-trivial = expected stream has >= 2 items, an error or a skip)"],
      assumptions=L2_ASSUME + ["memcheck detects reads past an exactly sized heap block (verified in DESIGN calibration)"])
 prop("C06", level="exploration", engine="vrt",
